@@ -10,7 +10,7 @@ PROP = "C01"
 PROOF_FILES = ["Properties/C01.v"]
 RULE = ("sweeps: for random rest-of-packet contents, SetPID for all 256 prior values of byte 1 x all 8192 PIDs and for all "
         "65536 prior (byte1,byte2) x boundary PIDs; the three flag setters for 256 x {0,1}; SetTransportScramblingControl "
-        "256 x 4; SetContinuityCounter 256 x 16 (and ints -40..55); Inc/Zero (method and copying) 256; SetCC (copying) "
+        "256 x 4; SetContinuityCounter 256 x 16 (and ints -40..55; individual calls of SetPID / SetContinuityCounter with out-of-range and negative Go ints are deciding too: the stored value is the argument mod 8192 / mod 16); Inc/Zero (method and copying) 256; SetCC (copying) "
         "256 x 16; all getters for all 65536 (byte1,byte2) and all 65536 (byte0,byte3); every reply carries the new header "
         "bytes, the read-back through function- and method-style getters and the count of calls that left bytes 4..187 "
         "untouched.  Individual calls on random packets compare all 188 bytes and all 19 getters; Equal on pairs differing "
@@ -26,7 +26,7 @@ ASSUMPTIONS = ["a Packet is a [188]byte value: constant-index reads cannot panic
                "argument-unchanged flags) and the model states the required answer"]
 PARTIAL = "aliasing of the copy helpers / CopyPackets / FromBytes is checked by goexec snapshots only (not expressible in the value model)"
 
-SETTERS = {"hdr.set_tei": (0, 1), "hdr.set_pusi": (0, 1), "hdr.set_tp": (0, 1), "hdr.set_pid": (0, 8191),
+SETTERS = {"hdr.set_tei": (0, 1), "hdr.set_pusi": (0, 1), "hdr.set_tp": (0, 1), "hdr.set_pid": None,
            "hdr.set_tsc": (0, 3), "hdr.set_cc": None, "hdr.set_cc_fn": (0, 15)}
 SWEEP_DECODE = {}   # filled by oracle(): sweep line -> an individual failing call (used by shrink)
 
@@ -91,10 +91,12 @@ def gen(rng, tier):
         out.append(Case("hdr.zero_cc_fn %s" % hx(p), kind="cc-copy", theorem="C01_cc_copy_helpers"))
         out.append(Case("hdr.set_cc_fn %s %d" % (hx(p), rng.randrange(16)), kind="cc-copy", theorem="C01_cc_copy_helpers"))
         # out-of-range arguments: fidelity (ties the wrap-around of the model to the code)
-        out.append(Case("hdr.set_pid %s %d" % (hx(p), rng.choice([8192, 65535, 65536, -1, -8192, 1 << 40, rng.randrange(-70000, 70000)])),
-                        kind="fidelity-range", decides=False, nontrivial=False))
-        out.append(Case("hdr.set_cc %s %d" % (hx(p), rng.choice([16, 17, 255, 256, -1, -16, 1 << 33, rng.randrange(-300, 300)])),
-                        kind="set-cc-anyint", theorem="C01_set_cc_any_int"))
+        # any Go int: SetPID stores pid mod 8192, SetContinuityCounter value mod 16 (C01_set_pid_any_int / C01_set_cc_any_int
+        # determine all 188 bytes for EVERY int, so these are deciding; non-trivial only when the value is in range)
+        v = rng.choice([8192, 8193, 65535, 65536, -1, -8191, -8192, -8193, 1 << 40, -(1 << 40), (1 << 62) + 5, rng.randrange(-70000, 70000)])
+        out.append(Case("hdr.set_pid %s %d" % (hx(p), v), kind="set-pid-anyint", nontrivial=0 <= v < 8192, theorem="C01_set_pid_any_int"))
+        v = rng.choice([16, 17, 255, 256, -1, -15, -16, -17, 1 << 33, -(1 << 33), rng.randrange(-300, 300)])
+        out.append(Case("hdr.set_cc %s %d" % (hx(p), v), kind="set-cc-anyint", nontrivial=0 <= v < 16, theorem="C01_set_cc_any_int"))
         out.append(Case("hdr.set_tsc %s %d" % (hx(p), rng.randrange(4, 256)), kind="fidelity-range", decides=False, nontrivial=False))
         out.append(Case("hdr.set_cc_fn %s %d" % (hx(p), rng.randrange(16, 256)), kind="fidelity-range", decides=False, nontrivial=False))
     # ---- Equal: identical, one bit flipped at every position, random pairs
